@@ -152,7 +152,7 @@ Proof.
   bind_inv H as [op r1] E1. destruct op as [hdr|]; [|discriminate].
   bind_inv H as fmt E2.
   destruct (into_width_and_height fmt) as [[w h]|] eqn:EW; [|discriminate].
-  destruct ((w =? 0) || (h =? 0)); [discriminate|].
+  destruct ((w <=? 0) || (h <=? 0)); [discriminate|].
   destruct (new_decoded hdr fmt) as [np0|] eqn:EN; [|discriminate].
   assert (EH : d_header np0 = hdr).
   { unfold new_decoded in EN. rewrite EW in EN. inversion EN. reflexivity. }
